@@ -937,3 +937,165 @@ Proof.
     + destruct (iskill ci) eqn:K; [apply Kql; apply Q2; auto | apply kq_nokill; exact K].
     + apply Kqr. right. exact IN.
 Qed.
+
+(* ------------------------------------------------------------------ *)
+(** * What carries over to the rest of the continuation when the monitor gains requests only *)
+
+Lemma cok_mono m m' a c :
+  (forall a c, has_req (k_reqs m) a c = true -> has_req (k_reqs m') a c = true) -> k_expect m' = k_expect m ->
+  cok m a c -> cok m' a c.
+Proof. intros R E. unfold cok. rewrite E. destruct c; auto; intros [H G]; split; auto. Qed.
+
+Lemma pok_mono2 m m' s s' x :
+  (forall a c, has_req (k_reqs m) a c = true -> has_req (k_reqs m') a c = true) -> k_expect m' = k_expect m -> nmono s s' ->
+  pok m s x -> pok m' s' x.
+Proof.
+  intros R E NM. destruct x; simpl; auto.
+  - destruct m0 as [[v|c]|]; auto. intros H a N. eapply cok_mono; eauto.
+  - intros [H|H]; [left; eapply cok_mono; eauto | right; eapply gone_mono; eauto].
+Qed.
+
+Lemma RK_frame m m' b mo k0 s s' evs :
+  tr s' = evs ++ tr s -> nmono s s' ->
+  (forall a c, has_req (k_reqs m) a c = true -> has_req (k_reqs m') a c = true) -> k_expect m' = k_expect m ->
+  RK m b (mo :: k0) s ->
+  (forall x, In x k0 -> pok m' s' x) /\
+  (forall ci, In (MRunItem ci) k0 -> kq (tr s') ci) /\
+  (forall ci, In ci (kl s) -> kq (tr s') ci) /\
+  (forall a c0, nget (k_expect m') a = Some c0 -> mo <> MTerminate a c0 ->
+     exists x, aget (actors s') a = Some x /\ (a_notify x = None \/ In (MTerminate a c0) k0)) /\
+  (forall x a, In x k0 -> tgt x = Some a -> fbody (mo :: k0) <> Some a) /\
+  (forall a p d, In (XCx a p, d) (dies s) -> exists x, aget (actors s') a = Some x).
+Proof.
+  intros TR NM RQ EX [Kb Kf Ky Kp Kz Kcx Kql Kqr].
+  split; [|split; [|split; [|split; [|split]]]].
+  - intros x IN. eapply pok_mono2; eauto. apply Kp. right. exact IN.
+  - intros ci IN. rewrite TR. apply kq_ext. apply Kqr. right. exact IN.
+  - intros ci IN. rewrite TR. apply kq_ext. apply Kql. exact IN.
+  - intros a c0 H NT. rewrite EX in H. destruct (Ky _ _ H) as (x & A & D). destruct (NM _ _ A) as (x' & A' & N'). exists x'. split; [exact A'|].
+    destruct D as [D|D]; [left; destruct N' as [N'|N']; congruence|].
+    destruct N' as [N'|N']; [|left; exact N']. right. destruct D as [D|D]; [exfalso; apply NT; exact D | exact D].
+  - intros x a IN T. apply (Kz x a); [right; exact IN | exact T].
+  - intros a p d IN. destruct (Kcx _ _ _ IN) as (x & A). destruct (NM _ _ A) as (x' & A' & _). eauto.
+Qed.
+
+(* ------------------------------------------------------------------ *)
+(** * The special steps *)
+
+Definition RKnext (k : list mop) (s : st) : Prop :=
+  BadF (tr s) \/ exists m b, monr stepK iK (tr s) = Some m /\ monr stepF None (tr s) = Some b /\ RK m b k s.
+
+Lemma has_req_grow m a c : forall a0 c0, has_req (k_reqs m) a0 c0 = true -> has_req ((a, c) :: k_reqs m) a0 c0 = true.
+Proof. intros a0 c0 H. apply has_req_cons. exact H. Qed.
+
+(* stop / fail inside the body of actor a *)
+Lemma IK_stopfail m b mo c l k0 s a p loc die :
+  stopfail c -> is_endb mo = false -> (forall a c, mo <> MTerminate a c) -> (forall ci, mo <> MRunItem ci) ->
+  FK (mo :: k0) (ctxs s) -> frames s = [mkFrame (XCx a p) loc die] ->
+  monr stepK iK (tr s) = Some m -> monr stepF None (tr s) = Some b -> RK m b (mo :: k0) s ->
+  RKnext ([MActs l] ++ k0)
+    (emit (set_frames s [mkFrame (XCx a p) loc (match die with Some d => Some d | None => Some c end)]) (EReq a c)).
+Proof.
+  intros SF EM NT NR F FR MK MF R. pose proof R as [Kb Kf Ky Kp Kz Kcx Kql Kqr].
+  destruct (FK_cx _ _ _ _ _ _ _ F FR) as (_ & u & f & EB & FA).
+  set (s' := emit (set_frames s [mkFrame (XCx a p) loc (match die with Some d => Some d | None => Some c end)]) (EReq a c)).
+  assert (LD : lastdie s = die) by (unfold lastdie, dies; rewrite FR; reflexivity).
+  assert (OB : k_body m = Some (a, u, die)) by (rewrite Kb; unfold openbody; rewrite EB, FA, LD; reflexivity).
+  set (m' := mkK ((a, c) :: k_reqs m) (Some (a, u, match die with Some d => Some d | None => Some c end)) (k_expect m)).
+  assert (MK' : monr stepK iK (tr s') = Some m').
+  { change (tr s') with (EReq a c :: tr s). cbn [monr]. rewrite MK. cbn [stepK]. rewrite OB. unfold m'. destruct die as [d|]; [reflexivity|].
+    rewrite N.eqb_refl. destruct c; try contradiction; reflexivity. }
+  assert (MF' : monr stepF None (tr s') = Some b) by (change (tr s') with (EReq a c :: tr s); cbn [monr]; rewrite MF; reflexivity).
+  right. exists m', b. split; [exact MK' | split; [exact MF'|]].
+  assert (EB' : endb ([MActs l] ++ k0) = endb (mo :: k0)) by (rewrite (endb_cons _ _ EM); reflexivity).
+  destruct (RK_frame m m' b mo k0 s s' [EReq a c] eq_refl (nmono_same _ _ eq_refl) (has_req_grow m a c) eq_refl R) as (P1 & P2 & P3 & P4 & P5 & P6).
+  constructor.
+  - unfold openbody. rewrite EB', EB, FA. reflexivity.
+  - unfold fbody. rewrite EB'. exact Kf.
+  - intros a0 c0 H. destruct (P4 _ _ H (NT _ _)) as (x & A & D). exists x. split; [exact A|]. destruct D as [D|D]; [left; exact D | right; right; exact D].
+  - intros x [<-|IN]; [exact I | apply P1; exact IN].
+  - intros x a0 [<-|IN] T; [discriminate T|]. unfold fbody. rewrite EB'. apply (P5 x a0 IN T).
+  - intros a0 p0 d0 [E|[]]. inversion E; subst. eapply P6. unfold dies. rewrite FR. left. reflexivity.
+  - intros ci IN. apply P3. exact IN.
+  - intros ci [E|IN]; [discriminate E | apply P2; exact IN].
+Qed.
+
+Lemma monK_kreq t m a e : monr stepK iK t = Some m ->
+  monr stepK iK (EReq a (CKill e) :: t) = Some (mkK ((a, CKill e) :: k_reqs m) (k_body m) (k_expect m)).
+Proof.
+  intros M. cbn [monr]. rewrite M. cbn [stepK]. destruct (k_body m) as [[[b0 u0] [c0|]]|]; try reflexivity.
+  destruct (N.eqb a b0); reflexivity.
+Qed.
+
+(* kill from the Stakker context: the termination starts at once *)
+Lemma IK_kill m b l0 l k0 s a e :
+  FK (MActs l0 :: k0) (ctxs s) -> DT (MActs l0 :: k0) s -> cur_ctx s = XStk ->
+  monr stepK iK (tr s) = Some m -> monr stepF None (tr s) = Some b -> RK m b (MActs l0 :: k0) s ->
+  RKnext (([MTerminate a (CKill e)] ++ [MActs l]) ++ k0) (emit s (EReq a (CKill e))).
+Proof.
+  intros F D CX MK MF R. pose proof R as [Kb Kf Ky Kp Kz Kcx Kql Kqr].
+  set (s' := emit s (EReq a (CKill e))).
+  set (m' := mkK ((a, CKill e) :: k_reqs m) (k_body m) (k_expect m)).
+  assert (ND : existsb dly k0 = false).
+  { destruct (existsb dly k0) eqn:X; auto. rewrite (DT_ctx _ _ _ D X) in CX. discriminate. }
+  assert (FB : fbody (MActs l0 :: k0) = None) by (eapply FK_stk; eauto).
+  right. exists m', b. split; [apply monK_kreq; exact MK|]. split; [change (tr s') with (EReq a (CKill e) :: tr s); cbn [monr]; rewrite MF; reflexivity|].
+  destruct (RK_frame m m' b _ k0 s s' [EReq a (CKill e)] eq_refl (nmono_same _ _ eq_refl) (has_req_grow m a (CKill e)) eq_refl R) as (P1 & P2 & P3 & P4 & P5 & P6).
+  assert (EB' : endb (([MTerminate a (CKill e)] ++ [MActs l]) ++ k0) = endb (MActs l0 :: k0)) by reflexivity.
+  constructor.
+  - unfold openbody. rewrite EB'. exact Kb.
+  - unfold fbody. rewrite EB'. exact Kf.
+  - intros a0 c0 H. assert (NT : MActs l0 <> MTerminate a0 c0) by discriminate. destruct (P4 _ _ H NT) as (x & A & G). exists x. split; [exact A|].
+    destruct G as [G|G]; [left; exact G | right; right; right; exact G].
+  - intros x [<-|[<-|IN]]; [|exact I | apply P1; exact IN].
+    simpl. destruct (nget (k_expect m) a) as [c0|] eqn:EX.
+    + destruct (Ky _ _ EX) as (y & A & [G|[G|G]]).
+      * right. exists y. auto.
+      * discriminate G.
+      * exfalso. assert (existsb dly k0 = true) by (apply existsb_exists; exists (MTerminate a c0); auto). congruence.
+    + left. split; [simpl; rewrite N.eqb_refl, N.eqb_refl; reflexivity | left; reflexivity].
+  - intros x a0 _ _. unfold fbody. rewrite EB'. fold (fbody (MActs l0 :: k0)). rewrite FB. discriminate.
+  - intros a0 p0 d0 IN. apply (P6 a0 p0 d0). exact IN.
+  - intros ci IN. apply P3. exact IN.
+  - intros ci [E|[E|IN]]; [discriminate E | discriminate E | apply P2; exact IN].
+Qed.
+
+Lemma kl_ref_clone' s a : kl (ref_clone s a) = kl s. Proof. apply kl_ref_clone. Qed.
+
+(* kill through the queue: an internal item carries it *)
+Lemma IK_killasync m b l0 l k0 s a e x :
+  aget (actors s) a = Some x ->
+  monr stepK iK (tr s) = Some m -> monr stepF None (tr s) = Some b -> RK m b (MActs l0 :: k0) s ->
+  RKnext ([MActs l] ++ k0)
+    (push_main (emit (ref_clone (upd_actor s a (with_strong x (oz (count_inc (a_strong x))))) a) (EReq a (CKill e))) (CI 0 0 (KKill a e) [] None)).
+Proof.
+  intros A MK MF R. pose proof R as [Kb Kf Ky Kp Kz Kcx Kql Kqr].
+  set (s1 := ref_clone (upd_actor s a (with_strong x (oz (count_inc (a_strong x))))) a).
+  set (s' := push_main (emit s1 (EReq a (CKill e))) (CI 0 0 (KKill a e) [] None)).
+  assert (EV : evs_in pbK s s1) by (unfold s1; eiK).
+  destruct EV as (evs & TR1 & PB).
+  assert (NM : nmono s s').
+  { eapply nmono_trans; [|apply nmono_same; reflexivity]. eapply nmono_trans; [|apply amono_nmono; apply amono_ref_clone].
+    intros b0 y H. rewrite aget_upd. destruct (N.eqb a b0) eqn:Q.
+    - apply N.eqb_eq in Q. subst b0. rewrite A in H. inversion H; subst y. eexists. split; [reflexivity | left; reflexivity].
+    - exists y. auto. }
+  set (m' := mkK ((a, CKill e) :: k_reqs m) (k_body m) (k_expect m)).
+  assert (TR : tr s' = (EReq a (CKill e) :: evs) ++ tr s) by (change (tr s') with (EReq a (CKill e) :: tr s1); rewrite TR1; reflexivity).
+  right. exists m', b. split; [rewrite TR; simpl app; apply monK_kreq; apply monK_block; auto|].
+  split; [rewrite TR; simpl app; cbn [monr]; rewrite (monF_block _ _ _ PB MF); reflexivity|].
+  destruct (RK_frame m m' b _ k0 s s' _ TR NM (has_req_grow m a (CKill e)) eq_refl R) as (P1 & P2 & P3 & P4 & P5 & P6).
+  assert (EB' : endb ([MActs l] ++ k0) = endb (MActs l0 :: k0)) by reflexivity.
+  assert (DS : dies s' = dies s) by (unfold s', s1; dies_rw; reflexivity).
+  constructor.
+  - unfold openbody. rewrite EB'. unfold lastdie. rewrite DS. exact Kb.
+  - unfold fbody. rewrite EB'. exact Kf.
+  - intros a0 c0 H. assert (NT : MActs l0 <> MTerminate a0 c0) by discriminate. destruct (P4 _ _ H NT) as (y & AY & G). exists y. split; [exact AY|].
+    destruct G as [G|G]; [left; exact G | right; right; exact G].
+  - intros y [<-|IN]; [exact I | apply P1; exact IN].
+  - intros y a0 [<-|IN] T; [discriminate T|]. unfold fbody. rewrite EB'. apply (P5 y a0 IN T).
+  - intros a0 p0 d0 IN. rewrite DS in IN. apply (P6 a0 p0 d0). exact IN.
+  - intros ci IN. unfold s' in IN. rewrite kl_push_main in IN. apply in_app_or in IN as [IN|IN].
+    + apply P3. revert IN. unfold s1. kl_rw. auto.
+    + simpl in IN. destruct IN as [<-|[]]. unfold kq. simpl. left. reflexivity.
+  - intros ci [E|IN]; [discriminate E | apply P2; exact IN].
+Qed.
